@@ -43,8 +43,8 @@ func C15(r *core.Run) {
 	w := rules.CollectWrites(pk, exp)
 	rd := rules.CollectReads(pk, imp)
 	rules.Coverage(r, "R-SYM/S1", "export→import", w, rd, func(m string) bool { return strings.HasPrefix(m, "schema_j5pb.") }, map[string]string{
-		"schema_j5pb.Field.Type":       "oneof holder: members are checked as slots",
-		"schema_j5pb.RootSchema.Type":  "oneof holder: members are checked as slots",
+		"schema_j5pb.Field.Type":         "oneof holder: members are checked as slots",
+		"schema_j5pb.RootSchema.Type":    "oneof holder: members are checked as slots",
 		"schema_j5pb.ObjectField.Schema": "oneof holder: members are checked as slots",
 		"schema_j5pb.OneofField.Schema":  "oneof holder: members are checked as slots",
 		"schema_j5pb.EnumField.Schema":   "oneof holder: members are checked as slots",
